@@ -247,7 +247,7 @@ int main(int argc, char **argv)
     const Json &sched = j["sched"];
     size_t sp = 0;
     Json drift;
-    bool stuck = false;
+    bool stuck = false, livelock = false;
     {
       std::unique_lock<std::mutex> lk(M);
       events.clear();
@@ -269,8 +269,12 @@ int main(int argc, char **argv)
       bool following = mode == FOLLOW;
       const bool aware = mode == FOLLOW;
       int idleMs = 0;
+      long grants = 0;
       std::string lastSite;
       for (;;) {
+        // a script has at most a dozen calls and a model path at most a few hundred steps: an execution that is still
+        // being granted steps after 4000 of them does not terminate (livelock) - report it instead of logging for ever
+        if (grants > 4000) { livelock = true; break; }
         // let every running thread reach its next point (or decide that it is blocked in the kernel)
         auto quiet = [&] { return th[0].st != Running && th[1].st != Running && th[0].st != Granted && th[1].st != Granted; };
         // (model-aware modes never grant a step that blocks in the kernel, except the loop thread's wait(), which is
@@ -344,6 +348,7 @@ int main(int argc, char **argv)
           pick = cand[rng() % n];
         }
         if (pick == 1 && th[1].site == "H_settle" && startedFlag) logLocked('C', "SettleOk", "");
+        ++grants;
         th[pick].grant = true;
         th[pick].st = Granted;
         lastSite = th[pick].site;
@@ -356,12 +361,15 @@ int main(int argc, char **argv)
         }
       }
     }
-    if (stuck) {
-      // cannot tear down cleanly: report and leave (threads are blocked in the kernel)
+    if (stuck || livelock) {
+      // cannot tear down cleanly: report and leave (threads are blocked in the kernel, or never stop asking for steps)
       Json r = Json::object();
-      r.set("id", j["id"]).set("stuck", true);
+      r.set("id", j["id"]).set(stuck ? "stuck" : "hang", true);
       Json evs = Json::array();
-      for (auto &e : events) { Json x = Json::object(); x.set("s", (long long)e.s).set("t", std::string(1, e.t)).set("e", e.e).set("site", e.site); evs.push(x); }
+      size_t kept = 0;
+      for (auto &e : events) {
+        if (livelock && ++kept > 600) break;   // a prefix is enough: the verdict is the missing termination
+        Json x = Json::object(); x.set("s", (long long)e.s).set("t", std::string(1, e.t)).set("e", e.e).set("site", e.site); evs.push(x); }
       r.set("events", evs);
       of << r.dump() << "\n";
       of.flush();
